@@ -440,7 +440,7 @@ pub fn next_id_runs(acc: &mut Acc, cap: usize, run: usize, variant: usize) {
     }
 }
 
-pub fn run_c05_family(_tier: &str) -> Acc {
+pub fn run_c05_family(tier: &str) -> Acc {
     let caps = [1usize, 2, 9, 10, 12, 17, 33, 64, 300, 1024];
     let mut cases = vec![];
     for cap in caps {
@@ -458,6 +458,7 @@ pub fn run_c05_family(_tier: &str) -> Acc {
         }
     });
     script_scenarios(&mut acc);
+    acc.merge(run_c05_dag_family(tier));
     acc
 }
 
@@ -519,3 +520,193 @@ pub fn script_scenarios(acc: &mut Acc) {
     }
 }
 
+
+/// C05 under merges of graphs that are not trees (the fold of two left vertices into one is the only
+/// place outside next_id() that touches vertices by id wholesale). No model of the fold is needed:
+/// the oracle is the property itself, read off the real graph - an id handed out is below the
+/// capacity, absent at that moment, and not among the ids handed out or seen appearing before.
+/// Case index -> (left shape, right graph, continuation); see `dag_case_count`.
+const DAG_CAP: usize = 12;
+const DAG_LEFT_SHAPES: usize = 1 + 3 * 3 + 9 * 6 + 27 * 6; // kids 0..3: origins^k x injective labellings
+
+fn dag_left(mut i: usize) -> (Vec<u8>, Vec<u8>, bool) {
+    // (origin per kid: 0 = add(next_id()), 1 = add(position+1), 2 = add(position+2); label per kid; grandchild under kid 0)
+    let gc = i % 2 == 1;
+    i /= 2;
+    let perms3: [[u8; 3]; 6] = [[0, 1, 2], [0, 2, 1], [1, 0, 2], [1, 2, 0], [2, 0, 1], [2, 1, 0]];
+    if i == 0 {
+        return (vec![], vec![], gc);
+    }
+    i -= 1;
+    if i < 9 {
+        return (vec![(i / 3) as u8], vec![(i % 3) as u8], gc);
+    }
+    i -= 9;
+    if i < 54 {
+        let p = perms3[i % 6];
+        let o = i / 6;
+        return (vec![(o % 3) as u8, (o / 3) as u8], vec![p[0], p[1]], gc);
+    }
+    i -= 54;
+    let p = perms3[i % 6];
+    let o = i / 6;
+    (vec![(o % 3) as u8, (o / 3 % 3) as u8, (o / 9) as u8], p.to_vec(), gc)
+}
+
+pub fn dag_case_count(tier: &str) -> (usize, usize) {
+    // right graphs: ids 0,1,2 (2 optional); slot (from,label) -> none | one of the other vertices
+    let rights = if tier == "thorough" { 3usize.pow(9) + 2usize.pow(6) } else { 3usize.pow(6) + 2usize.pow(6) };
+    (DAG_LEFT_SHAPES * 2, rights)
+}
+
+/// right graph `r`: first the three-vertex graphs (thorough: all 9 slots; quick: vertex 2 has no
+/// edges going out), then the two-vertex graphs (6 slots, none | the other vertex).
+fn dag_right(tier: &str, r: usize) -> (usize, Vec<(usize, u8, usize)>) {
+    let three = if tier == "thorough" { 3usize.pow(9) } else { 3usize.pow(6) };
+    let mut edges = vec![];
+    if r < three {
+        let slots = if tier == "thorough" { 9 } else { 6 };
+        let mut x = r;
+        for s in 0..slots {
+            let (from, l) = (s / 3, (s % 3) as u8);
+            let t = x % 3;
+            x /= 3;
+            if t > 0 {
+                let others: Vec<usize> = (0..3).filter(|v| *v != from).collect();
+                edges.push((from, l, others[t - 1]));
+            }
+        }
+        (3, edges)
+    } else {
+        let mut x = r - three;
+        for s in 0..6 {
+            let (from, l) = (s / 3, (s % 3) as u8);
+            if x % 2 == 1 {
+                edges.push((from, l, 1 - from));
+            }
+            x /= 2;
+        }
+        (2, edges)
+    }
+}
+
+pub fn dag_merge_case(acc: &mut Acc, tier: &str, li: usize, ri: usize) {
+    let labs = [0u8, 1, 2]; // α0, x, foo
+    let (origins, llabels, gc) = dag_left(li);
+    let (rn, redges) = dag_right(tier, ri);
+    let replay = json!({"engine": "c05-dag", "property": "C05", "tier": tier, "left": li, "right": ri});
+    acc.evaluations += 1;
+    let r = guarded(|| -> Result<(bool, bool), String> {
+        let mut g: Sodg<4> = Sodg::empty(DAG_CAP);
+        let mut handed: Vec<usize> = vec![];
+        let mut story = String::new();
+        let take = |g: &mut Sodg<4>, handed: &mut Vec<usize>, story: &mut String| -> Result<Option<usize>, String> {
+            let pos = g.verif_snapshot().next_v;
+            let keys = g.keys();
+            if !(pos..DAG_CAP).any(|v| !keys.contains(&v)) {
+                return Ok(None); // outside the quantifier: no absent id left at or above the position
+            }
+            let id = g.next_id();
+            story.push_str(&format!(" next_id()={id};"));
+            if id >= DAG_CAP || keys.contains(&id) || handed.contains(&id) {
+                return Err(format!("{story} <- that id is {} (present before the call: {keys:?}; handed out or created before: {handed:?})", if id >= DAG_CAP { "not below the capacity" } else if keys.contains(&id) { "present" } else { "not fresh" }));
+            }
+            handed.push(id);
+            Ok(Some(id))
+        };
+        let Some(root) = take(&mut g, &mut handed, &mut story)? else { return Ok((false, false)) };
+        g.add(root);
+        let mut kids = vec![];
+        for (k, o) in origins.iter().enumerate() {
+            let id = if *o == 0 {
+                match take(&mut g, &mut handed, &mut story)? {
+                    Some(id) => id,
+                    None => return Ok((false, false)),
+                }
+            } else {
+                let id = g.verif_snapshot().next_v + *o as usize;
+                if id >= DAG_CAP || g.keys().contains(&id) {
+                    return Ok((false, false));
+                }
+                story.push_str(&format!(" add({id});"));
+                id
+            };
+            g.add(id);
+            g.bind(root, id, crate::menu::lab(labs[llabels[k] as usize]));
+            story.push_str(&format!(" bind({root},{id},{});", crate::menu::lab_text(labs[llabels[k] as usize])));
+            kids.push(id);
+        }
+        if gc && !kids.is_empty() {
+            let Some(id) = take(&mut g, &mut handed, &mut story)? else { return Ok((false, false)) };
+            g.add(id);
+            g.bind(kids[0], id, crate::menu::lab(0));
+            story.push_str(&format!(" bind({},{id},α0);", kids[0]));
+        }
+        let mut h: Sodg<4> = Sodg::empty(4);
+        for v in 0..rn {
+            h.add(v);
+        }
+        for (f, l, t) in &redges {
+            h.bind(*f, *t, crate::menu::lab(labs[*l as usize]));
+        }
+        let before = g.keys();
+        let res = guarded(|| g.merge(&h, root, 0).is_ok());
+        let Ok(ok) = res else { return Ok((true, false)) }; // the fold refused (conflict): no verdict here, the history ends
+        story.push_str(&format!(" merge(right graph #{ri}: {} vertices, edges {:?})={};", rn, redges, if ok { "Ok" } else { "Err" }));
+        for v in g.keys() {
+            if !before.contains(&v) {
+                handed.push(v); // created inside merge(): its id came from next_id()
+            }
+        }
+        for i in 0..3 {
+            let Some(id) = take(&mut g, &mut handed, &mut story)? else { break };
+            if (i + li) % 2 == 0 {
+                g.add(id);
+            }
+        }
+        Ok((true, true))
+    });
+    match r {
+        Ok(Ok((merged, finished))) => {
+            if merged {
+                acc.nontrivial += 1;
+            }
+            acc.bump(if finished { "dag_merge_histories_completed" } else if merged { "dag_merge_fold_refused" } else { "dag_merge_left_shape_outside_limits" }, 1);
+        }
+        Ok(Err(e)) => acc.fail("C05", "dag-merge:id-not-fresh", format!("merge of a graph that is not a tree, then next_id():{e}"), replay),
+        Err(_) => acc.bump("dag_merge_history_panicked_after_fold", 1),
+    }
+}
+
+pub fn run_c05_dag_family(tier: &str) -> Acc {
+    let (lefts, rights) = dag_case_count(tier);
+    let t = tier.to_string();
+    let f = |i: usize, acc: &mut Acc| {
+        dag_merge_case(acc, &t, i / rights, i % rights);
+        if i % 9973 == 0 {
+            acc.sample(json!({"family": "merge of non-trees then next_id", "left_shape": i / rights, "right_graph": i % rights}));
+        }
+    };
+    super::par_cases(lefts * rights, f)
+}
+
+pub fn replay(engine: &str, v: &serde_json::Value) -> i32 {
+    let mut acc = Acc::default();
+    match engine {
+        "c05-dag" => dag_merge_case(&mut acc, v["tier"].as_str().unwrap_or("quick"), v["left"].as_u64().unwrap_or(0) as usize, v["right"].as_u64().unwrap_or(0) as usize),
+        _ => {
+            println!("unknown engine '{engine}' in replay file");
+            return 2;
+        }
+    }
+    for f in &acc.failures {
+        println!("  observed [{}]: {}", f.signature, f.summary);
+    }
+    if acc.failures.is_empty() {
+        println!("NOT REPRODUCED property=C05");
+        0
+    } else {
+        println!("REPRODUCED property=C05");
+        1
+    }
+}
